@@ -10,6 +10,7 @@ from common import Scn, hx, Opt, CFGF
 import gen
 
 VARIANT = 'asan'
+EXTRA_VARIANTS = ['count']      # failing includes: no FILE and no block stays behind
 COMPARE_LINES = True      # line numbers in diagnostics are part of this property
 RULE = ('accepted item lists x random include trees (depth 1..12) x 3 placements (cwd, search path, absolute); failing includes '
         'x repetitions 1..12 followed by a good one; non-trivial = nesting depth >= 2 or a failing include; distinct by text')
@@ -180,7 +181,7 @@ def generate(rng, tier):
                 lines.append('file %s file %s' % (hx(b'c%d.conf' % k), hx((b'include("c%d.conf")\n' % (k + 1)) if k < LIMIT + 2 else b'i = 1\n')))
             first = len(lines)
             lines += ['parse_buf 0 ' + hx(text)] * reps
-            lines += ['parse_buf 0 ' + hx(b'include("good.conf")\n'), 'dump 0']
+            lines += ['parse_buf 0 ' + hx(b'include("good.conf")\n'), 'dump 0', 'free 0', 'live']
             n += 1
             yield Scn('fail-%s-%d' % (kind, reps), lines, {'class': 'failing/' + kind, 'kind': 'fail', 'first': first, 'reps': reps, 'depth': 0})
 
@@ -226,6 +227,20 @@ def oracle(scn, il):
                 out.append(('failure-not-reported', '%s: failing include #%d: %s' % (scn.id, k + 1, l[:200])))
                 break
         good = body[first + reps]
-        if 'rc=0 ' not in good or '(opt 69 int 1 0 1 1 - 42)' not in body[-1]:
+        if 'rc=0 ' not in good or '(opt 69 int 1 0 1 1 - 42)' not in body[-3]:
             out.append(('capacity-lost', '%s: a good include after %d failing ones: %s' % (scn.id, reps, good[:200])))
     return out
+
+
+def extra_select(scn, variant):
+    return scn.meta['kind'] == 'fail'
+
+
+def oracle_variant(scn, il, variant):
+    body = il[:-1] if il and il[-1].startswith('--- ') else il
+    if not body or not body[-1].startswith('live blocks='):
+        return [('no-result', '%s (count): %s' % (scn.id, il[-1] if il else 'nothing'))]
+    if body[-1] != 'live blocks=0 files=0':
+        return [('leak:' + re.sub(r'\d+', 'N', body[-1].replace('live ', '').replace(' ', ',')), '%s: after %d failing includes and freeing the context: %s' % (
+            scn.id, scn.meta['reps'], body[-1]))]
+    return []
